@@ -38,7 +38,7 @@ def predicate(job, res):
     if res['bad_open']:
         fails.append({'what': 'input opened for writing', 'opens': res['bad_open'][:3]})
     unrep = set((p, i) for p, i, c in res['log_events'] if c == 4)
-    if unrep and res['corr'][0] == 'RC' and res['corr'][1] == 0:
+    if unrep and res['corr'][0] == 'RC' and isinstance(res['corr'][1], int) and (res['corr'][1] & 0xFF) == 0:      # the exit status the caller of `pff` sees: sys.exit(n) keeps the low 8 bits
         fails.append({'what': 'exit status 0 although a block was reported unrepairable', 'blocks': sorted(unrep)[:5]})
     seen = set()
     for ent in res.get('files', []):
@@ -233,6 +233,9 @@ def corpus(rng):
             for dseed in (1, 2, 3):
                 out.append(dict(b, algo=algo, mb=20, size=200, rates=[0.17] * len(rates), tree={'f.bin': content(r, 150, 'rand').hex()},
                                 damage={'kind': 'over1', 'targets': 'all'}, dseed=dseed))
+        # exactly 256 files with an unrepairable block: the exit status must still be non-zero (a COUNT used as exit status wraps modulo 256)
+        if tool == 'hdr':
+            out.append(dict(b, mb=16, size=40, tree={'m/%03d' % i: content(r, 24, 'rand').hex() for i in range(256)}, damage={'kind': 'file_all', 'targets': 'all'}))
         # truncation with --ignore_size, hash bytes only, parity only with the syndrome pre-check
         out.append(dict(b, tree={'a.bin': mid}, ignore_size=True, damage={'kind': 'trunc', 'weight': 333, 'targets': 'all', 'also_file': True, 'fweight': 3}))
         out.append(dict(b, tree={'a.bin': mid}, damage={'kind': 'hash', 'weight': 3, 'nblocks': 3, 'targets': 'all'}))
